@@ -43,14 +43,19 @@ where
         let mut filtered_indices = VecDeque::new();
 
         let mut original_idx = 0;
-        values.retain(|val| {
-            let keep = filter(val);
-            if keep {
-                filtered_indices.push_back(original_idx);
-            }
-            original_idx += 1;
-            keep
-        });
+        // Not `Vector::retain`: as of imbl 5.0.0 it garbles vectors whose first
+        // chunk has been consumed from the front (e.g. by `pop_front`).
+        values = values
+            .into_iter()
+            .filter(|val| {
+                let keep = filter(val);
+                if keep {
+                    filtered_indices.push_back(original_idx);
+                }
+                original_idx += 1;
+                keep
+            })
+            .collect();
 
         let inner = FilterImpl { inner, filtered_indices, original_len };
         (values, Self { inner, filter })
@@ -158,14 +163,18 @@ where
     {
         let mut original_idx = *self.original_len;
         *self.original_len += values.len();
-        values.retain(|value| {
-            let keep = f(value);
-            if keep {
-                self.filtered_indices.push_back(original_idx);
-            }
-            original_idx += 1;
-            keep
-        });
+        // Not `Vector::retain`, see `Filter::new`.
+        values = values
+            .into_iter()
+            .filter(|value| {
+                let keep = f(value);
+                if keep {
+                    self.filtered_indices.push_back(original_idx);
+                }
+                original_idx += 1;
+                keep
+            })
+            .collect();
 
         values.is_empty().not().then_some(values)
     }
